@@ -886,6 +886,7 @@ pub fn gen_scenario(run_seed: u64, variant: &str, tier: Tier) -> E1Scenario {
         closed_imports: rw.chance(1, 2),
         cover_fragments: false,
         name_collisions: variant != "c08" && rw.chance(1, 3),
+        mixed_wildcard: false,
         dirs: vec!["/proj/src".into(), "/proj/src/a".into(), "/proj/src/a/b".into(), "/proj/lib".into()],
     };
     let ops_model = wgen::gen_ops(&mut rw, &schema, &o);
@@ -902,7 +903,7 @@ pub fn gen_scenario(run_seed: u64, variant: &str, tier: Tier) -> E1Scenario {
         for _ in 0..n {
             let fi = rf.below(files.len());
             let orig = files[fi].versions[0].text.clone();
-            let kind = *rf.pick(&["truncate", "truncate", "bitflip", "bitflip", "splice", "empty", "badutf8", "unispace", "token_subst", "token_subst", "paste_spread", "paste_spread"]);
+            let kind = *rf.pick(&["truncate", "truncate", "bitflip", "bitflip", "splice", "empty", "badutf8", "unispace", "token_subst", "token_subst", "token_insert", "token_insert", "paste_spread", "paste_spread"]);
             let c = crate::e2::Corruption { path: files[fi].path.clone(), kind: kind.into(), a: rf.below(orig.len().max(1)), b: rf.below(8) };
             let mut t: crate::sandbox::Tree = [(files[fi].path.clone(), orig.into_bytes())].into_iter().collect();
             if crate::e2::corrupt(&mut t, &c, &all) {
